@@ -321,7 +321,7 @@ theorem alias_keeps_sync {w : World} (h : Inv w) {k : Nat} {o : Obj} (ho : w.obj
     intro hm
     obtain ⟨e, he, hk⟩ := List.mem_map.1 hm
     have := reg_entry_of_id hi (List.mem_of_getElem? hj2) hn2 (show (aliasId p1 p2, e.2) ∈ o.reg by rw [← hk]; exact he)
-    exact (hi.indepIff j2 (List.mem_of_getElem? hj2)).1 hind ⟨_, he, this.2⟩
+    exact (hi.indepIff j2 (List.mem_of_getElem? hj2)).1 hind ⟨_, he, this.2.1⟩
   intro e he s t hs hsn ht
   rw [hval, hval]
   have hmem : e ∈ mapInsert (aliasId p1 p2) w.lnext o.reg := he
@@ -416,7 +416,15 @@ theorem refuse_clause {w : World} (h : Inv w) {k : Nat} {o : Obj} (ho : w.objs k
       have c1 : (shortNames w o).contains p1 = true := List.contains_iff_mem.2 hs1
       have c2 : (shortNames w o).contains p2 = true := List.contains_iff_mem.2 hs2
       simp only [mustRefuse, hshorts, c1, c2, Bool.not_true, Bool.false_or, Bool.or_eq_true, beq_iff_eq] at must
-      rcases must with (htg | heq) | hfol
+      have twice : (svOf w o).isTarget p2 = true → (aliasPair w k p1 p2).err ≠ none ∧ (aliasPair w k p1 p2).w = w := by
+        intro htg
+        have hnot : i2 ∉ o.indep := fun hin =>
+          (hi.indepIff i2 hm2).1 hin ((isTarget_svOf hi hm2 hn2).1 htg)
+        have := refuse_twice h ho h1 h2 hnot
+        exact ⟨by rw [this.1]; simp, this.2⟩
+      rcases must with ((htg | heq) | hfol) | hclash
+      rotate_left 3
+      · exact twice (idInUse_isTarget hi hs2 hclash)
       · have hnot : i2 ∉ o.indep := fun hin =>
           (hi.indepIff i2 hm2).1 hin ((isTarget_svOf hi hm2 hn2).1 htg)
         have := refuse_twice h ho h1 h2 hnot
